@@ -1,7 +1,10 @@
 #!/bin/sh
 # Rebuild /repo/_build (guard OFF) and run the repository's test suite; prints the failing gtest
 # cases so they can be compared with BASELINE.json's always_fail list.
-cmake --build /repo/_build -j16 2>&1 | tail -1
+if ! cmake --build /repo/_build -j16 > /tmp/repotest_build.log 2>&1; then
+  echo "BUILD FAILED"; grep -E "error|Error" /tmp/repotest_build.log | head -20; exit 1
+fi
+tail -1 /tmp/repotest_build.log
 ctest --test-dir /repo/_build -j8 --timeout 900 2>&1 | grep -E "tests passed|tests failed|Failed|\*\*\*" | head -20
 ctest --test-dir /repo/_build --rerun-failed --output-on-failure 2>&1 | grep -E "^\[  FAILED  \] [A-Za-z]+\.[A-Za-z0-9_]+ \(" | sort -u
 echo "expected always_fail: Parser.invalidXMLElements Printer.mathMLInResetWithSyntaxError Printer.mathMLWithSyntaxError"
